@@ -75,6 +75,14 @@ type Contract struct {
 	IndFrom      ast.Expr
 	Uses         []string
 	Asserts      map[string][]Clause // call-site assertions
+	FnParams     map[string]*FnParamSpec
+}
+
+// FnParamSpec is the contract of a function-typed parameter.
+type FnParamSpec struct {
+	Name   string
+	Params []string
+	Clause Clause
 }
 
 type CaseSplit struct {
@@ -309,9 +317,10 @@ var clauseKeywords = map[string]bool{
 	"func": true, "spec": true, "axiom": true, "instantiate": true, "nosafety": true,
 	"onlysafety": true, "unfold": true, "assert": true, "cases": true, "partial": true,
 	"lemma": true, "induction": true, "uses": true, "hint": true, "reads": true, "guard": true,
-	"guarded": true, "unshared": true,
+	"guarded": true, "unshared": true, "fnparam": true,
 }
 
+var fnparamRe = regexp.MustCompile(`^([A-Za-z_][A-Za-z0-9_]*)\(([^)]*)\)\s*:\s*(.*)$`)
 var assertRe = regexp.MustCompile(`^(before|after)\s+([A-Za-z_][A-Za-z0-9_]*)#([0-9]+)\s*:\s*(.*)$`)
 
 var lemmaRe = regexp.MustCompile(`^([A-Za-z_][A-Za-z0-9_]*)\s*\(([^)]*)\)$`)
@@ -498,6 +507,26 @@ func (e *Engine) parseContracts(body, pkgPath, file string, line0 int) error {
 					return fmt.Errorf("%s:%d: bad cases clause", file, rc.line)
 				}
 				cur.Cases = &CaseSplit{Expr: ex, Lo: lo, Hi: hi}
+			case "fnparam":
+				// fnparam f(a, b): <expr over a, b, ret> — contract of a function-typed parameter:
+				// assumed for calls through f in the body, proved of the function passed at
+				// every call site of this function
+				m := fnparamRe.FindStringSubmatch(rc.text)
+				if m == nil {
+					return fmt.Errorf("%s:%d: fnparam name(params): expr", file, rc.line)
+				}
+				ex, err := ParseSpecExpr(m[3])
+				if err != nil {
+					return fmt.Errorf("%s:%d: %v", file, rc.line, err)
+				}
+				var ps []string
+				for _, a := range strings.Split(m[2], ",") {
+					ps = append(ps, strings.TrimSpace(a))
+				}
+				if cur.FnParams == nil {
+					cur.FnParams = map[string]*FnParamSpec{}
+				}
+				cur.FnParams[m[1]] = &FnParamSpec{Name: m[1], Params: ps, Clause: Clause{Label: m[1], Src: m[3], Expr: ex, Line: rc.line}}
 			case "instantiate":
 				var targs []string
 				for _, a := range strings.Split(rc.text, ",") {
